@@ -110,6 +110,15 @@ func (s *serverSocket) upgradeTo(t ServerTransport, c *transport.Callbacks) {
 	s.transportMu.Lock()
 	defer s.transportMu.Unlock()
 
+	// The socket might have been closed while the upgrade was in progress.
+	// Do not switch to the new transport. Nobody would close it.
+	select {
+	case <-s.closeChan:
+		t.Close()
+		return
+	default:
+	}
+
 	old := s.transport
 	s.transport = t
 	old.Discard()
